@@ -62,7 +62,9 @@ type tsmEntry struct {
 	hasIndex bool
 }
 
-func newModelTSM() *modelTSM { return &modelTSM{entries: map[string]*tsmEntry{}, regs: map[int][]byte{}} }
+func newModelTSM() *modelTSM {
+	return &modelTSM{entries: map[string]*tsmEntry{}, regs: map[int][]byte{}}
+}
 
 func (m *modelTSM) reg(i int) []byte {
 	if r, ok := m.regs[i]; ok {
